@@ -176,6 +176,7 @@ PROPS = {
             'Cast::to_texpr has the target type; MeasureExpression::to_texpr has the bit shape of its operand; UnaryExpr::to_texpr',
             'BinaryExpr::new_texpr_with_cast: result type is the common type (implicit_cast_type = promotion, float for integer division) and each operand has that type or is an explicit cast to exactly it',
             'identifier expressions carry the symbol type (lookup_identifier); equal_up_to_constness is exactly "equal up to const"',
+            'kind lowering is always diagnosed (must_diagnose, written from the statement: float -> int, complex -> real, anything to or from bit / bool / duration / stretch / angle / bit register of another kind): on every path of a declaration with initializer and of an assignment to a declared variable a type diagnostic is reported — never stored silently, not even behind a cast (assignment: outside the recorded integer-literal finding); can_cast_literal never allows such a literal cast; across kinds promotion returns exactly the higher-kind operand',
             'declaration rule (classical_declaration_statement_to_asg_stmt): the stored initializer has the declared type up to const, or is an explicit cast to exactly the declared type, or IncompatibleTypesError was reported last (carve-out: const / carve-out-typed non-literal values of another tower type)',
             'assignment rule (assignment_stmt_to_asg_stmt): after the right-hand side, the target is resolved once, at most one type diagnostic follows, the stored value has exactly the variable type or is an explicit cast to it (carve-out: integer literal into a non-uint variable), MutateConstError is appended iff the target is a const symbol',
         ],
